@@ -158,6 +158,12 @@ func genC10Seq(r *vk.RNG, binary bool) []c10op {
 				v = []byte{}
 			case 1:
 				v = append([]byte{0x00, 0xff, byte(nval), '\n'}, v...)
+			case 2:
+				// bytes a "helpful" reader or writer would strip, convert or interpret: byte order marks, compression
+				// magic, line ends and blanks at either end, a trailing NUL
+				pre := vk.Pick(r, []string{"\xef\xbb\xbf", "\xff\xfe", "\xfe\xff", "\x1f\x8b\x08", " ", "\t", "\n", "\r\n", ""})
+				post := vk.Pick(r, []string{"\n", "\r\n", " ", "\x00", "\n\n", "\x1a", ""})
+				v = []byte(pre + string(v) + post)
 			}
 			key := vk.Pick(r, keys)
 			if r.Chance(1, 3) {
